@@ -498,6 +498,10 @@ impl Property for C20 {
                     }
                 }
                 StreamEnd::Failed { kind, rows_before, message, .. } => {
+                    if message.contains("panicked") {
+                        labels.push("task-panic".into());
+                        return done(CaseResult::violation(ctxmsg(&format!("a task of the plan panicked instead of reporting the error: {message}"), &o)), &mut labels);
+                    }
                     labels.push("error-surfaced".into());
                     if *kind != ErrKind::Injected {
                         labels.push(format!("error-without-marker-{kind:?}"));
